@@ -1,6 +1,6 @@
 """C09 — shared-memory datasets keep their bytes, are protected in use, stay reachable (structural clauses)."""
 from .shm import (r_reader_ids, r_get_pagein, r_pageoutable, r_eviction_flow, r_purge, r_close_callback, r_pageout_transition, r_disk,
-                  r_pageout_callback, r_pagein_callback, r_server_dispatch, r_client_protocol, r_segment_name)
+                  r_pageout_callback, r_pagein_callback, r_server_dispatch, r_client_protocol, r_segment_name, r_disk_copy, r_add)
 
 META = {
     "explanation": "Static structural analysis of the shm dataset state machine on model stores: get() grants only in_memory datasets; the "
@@ -17,5 +17,11 @@ META = {
 }
 from .C10 import r9_memory_lifecycle  # noqa: E402  (the worker-side reader: every buffer obtained by get is closed exactly once)
 
+def r_writer_side(ctx):
+    """the worker-side writer: bytes of one serialisation written, segment closed (writer finished) before the dataset is announced (rule C01.R7, lazy import)"""
+    from .C01 import r7_memory
+    r7_memory(ctx)
+
+
 RULES = [r_get_pagein, r_pageoutable, r_eviction_flow, r_purge, r_close_callback, r_pageout_transition, r_pageout_callback,
-         r_pagein_callback, r_disk, r_reader_ids, r_server_dispatch, r_client_protocol, r_segment_name, r9_memory_lifecycle]
+         r_pagein_callback, r_disk, r_reader_ids, r_server_dispatch, r_client_protocol, r_segment_name, r9_memory_lifecycle, r_disk_copy, r_add, r_writer_side]
